@@ -135,6 +135,8 @@ impl<'a, 'tcx> D<'a, 'tcx> {
                     v.push(self.pat(cx, x));
                 }
                 o.push(("subs", J::Arr(v)));
+                o.push(("np", J::Int(prefix.len() as i64)));
+                o.push(("rest", J::Bool(slice.is_some())));
             }
             PatKind::Or { pats } => {
                 o.push(("k", J::s("Or")));
